@@ -16,8 +16,9 @@ for d in sorted(glob.glob('/verif/seeded/*/')):
     sig = r[5] if r and len(r) > 5 else ""
     note = ""
     ob = m.get("observed", "")
-    mm = re.search(r"\((missed[^)]*)\)", ob)
-    if mm: note = mm.group(1)
+    for mm in re.finditer(r"\(([^()]*)\)", ob):
+        if re.search(r"missed|crashed|seen by|before|saw it", mm.group(1)):
+            note = mm.group(1)
     rows.append("| `%s` | %s | %s | %s | `%s` | %s |" % (n, m["property"], m["needs_to_manifest"].replace('|', '/'), verdict, sig, note))
 t = "\n".join(rows)
 p = '/verif/DESIGN.md'; s = open(p).read()
